@@ -100,6 +100,9 @@ func (it *Generator) Send(arg Object) (Object, error) {
 	res, err := VmRunFrame(it.Frame)
 	it.Running = false
 	if err != nil {
+		// A generator which raised is finished: resuming it again
+		// must give StopIteration, not re-enter the dead frame
+		it.Frame.Yielded = false
 		return nil, err
 	}
 	if it.Frame.Yielded {
